@@ -191,11 +191,9 @@ func (cp *FreeList) ToGC() (string, error) {
 		return workFilePath, nil
 	}
 
-	_, err = cp.Flush()
-	if err != nil {
-		return "", err
-	}
-
+	// Only hand over what a store flush has already written. Entries still in
+	// the pool belong to index changes that are not flushed yet; freeing their
+	// blocks now would destroy records the durable index still points to.
 	cp.flushLock.Lock()
 	defer cp.flushLock.Unlock()
 
